@@ -25,7 +25,7 @@ EXPLANATION = ('(a) Operators are constructed with jax.export symbolic dimension
                'configurations {float32, float64} x {x64 on, off}, plus float16, bfloat16 and complex64 data and float64 parameters on float32 structures for the leaf-level programs; (b) is a finite enumeration on the IR and involves no solver.')
 FUNCTIONS = ['AbstractLinearOperator.out_structure/in_size/out_size/in_promoted_dtype/out_promoted_dtype', 'square()', 'AdditionOperator/CompositionOperator/_AbstractLazyDualOperator structures',
              'AbstractBlockOperator/BlockRowOperator/BlockColumnOperator structures', 'IndexOperator._out_structure', 'every constructor that accepts symbolic dimensions']
-BOUNDS = {'quick': '(a) 27 operator constructions with symbolic dimensions (all sizes >= 1); (b) catalogue leaves, .T, closed-form .I, reduce(), 40 composites per family x 3 dtype/x64 configurations; leaf-level programs + 15 composites also in float16 / bfloat16 / complex64; every diagonal / axis specification of the C11 and C13 families that the constructors accept',
+BOUNDS = {'quick': '(a) 27 operator constructions with symbolic dimensions (all sizes >= 1); (b) catalogue leaves, .T, closed-form .I, reduce(), 40 composites per family x 3 dtype/x64 configurations; leaf-level programs + 15 composites also in float16 / bfloat16 / complex64; every diagonal / axis specification of the C11 and C13 families that the constructors accept and every pack operator of the C12 family',
           'thorough': '(b) up to 3 000 composites per family'}
 STUBS = []
 ASSUMPTIONS = ['operators that reject symbolic dimensions (Reshape with -1, slices/ellipsis on a symbolic axis, Toeplitz signal axis) are covered by (b) only',
@@ -125,6 +125,10 @@ def cases(tier, seed):
     for k in c13.cases(tier, seed):
         if k[0] in ('move', 'ravel', 'reshape') and (len(k[1]) > 1 or tier == 'thorough' or zlib.crc32(repr(k).encode()) % 4 == 0):
             out.append(('accept', 'axes', k))
+    from . import c12
+    for k in c12.cases(tier, seed):
+        if k[0] == 'pack':
+            out.append(('accept', 'pack', k))
     out.append(('custom',))
     return out
 
@@ -272,6 +276,12 @@ def _accept(what, k):
         if what == 'diag':
             _, shapes, vs, ax, strict = k
             op = c11._cls(strict)(jnp.ones(vs), axis_destination=ax, in_structure=c11._ins(shapes))
+        elif what == 'pack':
+            from furax._base.linear import PackOperator
+            from furax.landscapes import StokesPyTree
+            _, skind, shape, mk = k
+            ins_ = S(*shape) if skind == 'arr' else StokesPyTree.class_for(skind).structure_for(tuple(shape), f64)
+            op = PackOperator(jnp.asarray(np.array(mk, dtype=bool)), ins_)
         else:
             op = c13._make(k)()
         xin = op.in_structure()
